@@ -27,7 +27,15 @@ class Model(object):
   ordered pairs present in the density dictionaries (API route: all).  dip/quad:
   like pairs, for ADP."""
 
-  def __init__(self, elements, pairs, fs=False, dip=None, quad=None, pair_list_rotation=0, surplus=None):
+  def __init__(self, elements, pairs, fs=False, dip=None, quad=None, pair_list_rotation=0, surplus=None, shared=None, fs_undeclared=None):
+    # shared: groups of function names served by ONE callable object (e.g. ("F_Cu", "rho_Cu"): the embedding function and
+    # the density of Cu are the same python object); the first name of a group stands for the function
+    self.alias = {}
+    for grp in (shared or []):
+      for nm in grp[1:]:
+        self.alias[nm] = grp[0]
+    # fs_undeclared: ordered (A, B) pairs missing from A's density mapping (a defaultdict giving a zero function)
+    self.fs_undeclared = set(fs_undeclared or [])
     # surplus: pair potentials handed to the writer that mention a species the model does not tabulate
     # ((a, b) species as declared); the file must be the same as without them
     self.surplus = list(surplus or [])
@@ -44,6 +52,10 @@ class Model(object):
     s = "elems=%s pairs=%s%s" % ("/".join(self.elements), ps(self.pairs), " fs" if self.fs else "")
     if self.surplus:
       s += " surplus-pairs=%s" % ",".join("%s-%s" % p for p in self.surplus)
+    if self.alias:
+      s += " one-object-for=%s" % ",".join("%s=%s" % kv for kv in sorted(self.alias.items()))
+    if self.fs_undeclared:
+      s += " undeclared-densities=%s" % ",".join("%s->%s" % p for p in sorted(self.fs_undeclared))
     if self.dip is not None:
       s += " dip=%s quad=%s" % (ps(self.dip), ps(self.quad))
     return s
@@ -99,10 +111,23 @@ def build_objects(model, mk, meta):
   """mk(name) -> callable.  meta(e) -> (Z, mass, a, lattice).  Returns
   (eampots, pairpots, dipoles, quadrupoles)."""
   from atsim.potentials import EAMPotential, Potential
+  import collections
+  mk0, made = mk, {}
+
+  def mk(name):
+    name = model.alias.get(name, name)
+    if name not in made:
+      made[name] = mk0(name)
+    return made[name]
   eampots = []
   for e in model.elements:
     if model.fs:
-      dens = {b: mk("rho_%s_%s" % (e, b)) for b in model.elements}
+      if model.fs_undeclared:
+        zero = _Zero()
+        dens = collections.defaultdict(lambda zero=zero: zero)
+        dens.update({b: mk("rho_%s_%s" % (e, b)) for b in model.elements if (e, b) not in model.fs_undeclared})
+      else:
+        dens = {b: mk("rho_%s_%s" % (e, b)) for b in model.elements}
     else:
       dens = mk("rho_%s" % e)
     z, mass, a, lat = meta(e)
@@ -121,6 +146,24 @@ def build_objects(model, mk, meta):
   dip = plist(model.dip, "u") if model.dip is not None else None
   quad = plist(model.quad, "w") if model.quad is not None else None
   return eampots, pairpots, dip, quad
+
+
+class _Zero(object):
+  def __call__(self, x):
+    return 0.0
+
+
+def aliased(alg, model):
+  """the algebra seen through the model's sharing of callables and its undeclared densities"""
+  if not model.alias and not model.fs_undeclared:
+    return alg
+  und = set("rho_%s_%s" % p for p in model.fs_undeclared)
+
+  def fn(name):
+    if name in und:
+      return lambda x: alg.num(0)
+    return alg.fn(model.alias.get(name, name))
+  return Alg(fn, alg.num, alg.sqrt)
 
 
 class Alg(object):
@@ -143,6 +186,7 @@ def float_alg(funcs):
 # expected / observed
 
 def expected_setfl(model, nr, nrho, dr, drho, alg, meta, style):
+  alg = aliased(alg, model)
   E = {}
   n = len(model.elements)
   E[("hdr", "drho")] = drho
@@ -263,6 +307,7 @@ def observed_tabeam(parsed, model, nr, nrho):
 
 
 def expected_tabeam(model, nr, nrho, dr, drho, alg):
+  alg = aliased(alg, model)
   E = {}
   for key in tabeam_layout(model):
     kind, sp = key
